@@ -20,15 +20,21 @@ import (
 //	(a) the slot argument is an int field read through a pointer (a counter shared by the whole
 //	    compilation), not a value looked up from an existing binding;
 //	(b) on every control-flow path from the call to the end of the function or to the next
-//	    binder call, that counter is incremented (X++ or X += 1).
+//	    binder call, that counter is incremented (X++ or X += 1);
+//	(c) `#guard`: a capacity test of the counter (an if statement that compares it with a constant
+//	    and returns) precedes the call inside the same innermost loop: a test made once before a
+//	    loop that binds several parameters admits a lambda that starts below the limit and ends
+//	    above it, and the slot one past the end of the VM's argument array is bound (C23: the
+//	    first store into it panics in the request handler).
 func init() {
 	register(&Rule{
-		Name:  "SLOT-FRESH",
-		IR:    "cfg",
-		Props: []string{"C21"},
-		Floor: 1,
-		Doc:   "every lambda parameter is bound to a fresh VM slot: the slot handed to the binder is the compilation's counter, and the counter is incremented on every path before the next binding or the end of the function (no slot is shared, not even by a parameter that shadows another)",
-		Run:   runSlotFresh,
+		Name:    "SLOT-FRESH",
+		IR:      "cfg",
+		Props:   []string{"C21", "C23"},
+		Floor:   2,
+		FloorBy: map[string]int{"C21": 1, "C23": 1},
+		Doc:     "every lambda parameter is bound to a fresh VM slot: the slot handed to the binder is the compilation's counter, and the counter is incremented on every path before the next binding or the end of the function (no slot is shared, not even by a parameter that shadows another)",
+		Run:     runSlotFresh,
 	})
 }
 
@@ -139,7 +145,65 @@ func runSlotFresh(c *Ctx) []Obligation {
 		}
 		for i, call := range sites {
 			slot := ast.Unparen(call.Args[binders[calleeFunc(info, call)]])
-			ob := Obligation{Key: fmt.Sprintf("%s#bind%d", name, i+1), Pos: c.Position(call.Pos()), Status: OK}
+			ob := Obligation{Key: fmt.Sprintf("%s#bind%d", name, i+1), Props: []string{"C21"}, Pos: c.Position(call.Pos()), Status: OK}
+			// (c) the capacity test
+			if sel, ok := slot.(*ast.SelectorExpr); ok {
+				gob := Obligation{Key: fmt.Sprintf("%s#guard%d", name, i+1), Props: []string{"C23", "C21"}, Pos: c.Position(call.Pos()), Status: Violation,
+					Detail: fmt.Sprintf("no capacity test of %s (an if statement that compares it with a constant and returns) precedes %s", srcText(c.Fset, sel), srcText(c.Fset, call))}
+				myLoops := enclosingLoops(fd.Body, call)
+				var inner ast.Node
+				if len(myLoops) > 0 {
+					inner = myLoops[len(myLoops)-1]
+				}
+				ast.Inspect(fd.Body, func(n ast.Node) bool {
+					ifs, ok := n.(*ast.IfStmt)
+					if !ok || ifs.Pos() > call.Pos() {
+						return true
+					}
+					be, ok := ast.Unparen(ifs.Cond).(*ast.BinaryExpr)
+					if !ok {
+						return true
+					}
+					var other ast.Expr
+					switch {
+					case sameExpr(info, ast.Unparen(be.X), sel):
+						other = be.Y
+					case sameExpr(info, ast.Unparen(be.Y), sel):
+						other = be.X
+					default:
+						if add, ok := ast.Unparen(be.X).(*ast.BinaryExpr); ok && sameExpr(info, ast.Unparen(add.X), sel) {
+							other = be.Y
+						} else {
+							return true
+						}
+					}
+					if tv := info.Types[other]; tv.Value == nil {
+						return true
+					}
+					returns := false
+					for _, st := range ifs.Body.List {
+						if _, ok := st.(*ast.ReturnStmt); ok {
+							returns = true
+						}
+					}
+					if !returns {
+						return true
+					}
+					gl := enclosingLoops(fd.Body, ifs)
+					var ginner ast.Node
+					if len(gl) > 0 {
+						ginner = gl[len(gl)-1]
+					}
+					if ginner == inner {
+						gob.Status = OK
+						gob.Detail = fmt.Sprintf("the capacity test %s precedes %s in the same loop iteration", srcText(c.Fset, ifs.Cond), srcText(c.Fset, call))
+					} else if gob.Status != OK {
+						gob.Detail = fmt.Sprintf("the capacity test %s at %s is made once, outside the loop in which %s binds one slot per iteration: a lambda that starts below the limit and ends above it is accepted, and the slot one past the end of the argument array is bound", srcText(c.Fset, ifs.Cond), c.Position(ifs.Pos()), srcText(c.Fset, call))
+					}
+					return true
+				})
+				out = append(out, gob)
+			}
 			// (a) a counter: an int field selected through a pointer-typed variable
 			isCounter := false
 			if sel, ok := slot.(*ast.SelectorExpr); ok {
